@@ -24,16 +24,31 @@ var (
 	readFrom int64
 )
 
-// Init redirects fd 2 into a temp file (the original stderr stays reachable through Stderr()).
+// CapturePath, if set before Init, names the file fd 2 is redirected into (so that a driver can
+// read what a crashed process wrote); otherwise an unlinked temp file is used.
+var CapturePath string
+
+// Init redirects fd 2 into a file (the original stderr stays reachable through Stderr()).
 func Init() error {
 	if capFile != nil {
 		return nil
 	}
-	f, err := ioutil.TempFile("", "dstsim-race-")
+	var f *os.File
+	var err error
+	if p := os.Getenv("DSTSIM_FD2"); p != "" && CapturePath == "" {
+		CapturePath = p
+	}
+	if CapturePath != "" {
+		f, err = os.OpenFile(CapturePath, os.O_CREATE|os.O_RDWR|os.O_TRUNC, 0644)
+	} else {
+		f, err = ioutil.TempFile("", "dstsim-race-")
+		if err == nil {
+			os.Remove(f.Name())
+		}
+	}
 	if err != nil {
 		return err
 	}
-	os.Remove(f.Name())
 	fd, err := syscall.Dup(2)
 	if err != nil {
 		return err
